@@ -776,6 +776,8 @@ print_res (NiceAgent *agent)
   agent_unlock (agent);
 }
 
+static struct { char name[16]; int fd; } foreign_tcp[8];
+
 int main (void)
 {
   static char line[1 << 20]; char *w[MAXW];
@@ -988,6 +990,46 @@ int main (void)
     else if (!strcmp (w[0], "getsel") && n == 4 && (g = find_ag (w[1])) && g->alive) {
       NiceCandidate *l = NULL, *r = NULL;
       printf ("ok ret %d\n", nice_agent_get_selected_pair (g->agent, atoi (w[2]), atoi (w[3]), &l, &r));
+    }
+    else if (!strcmp (w[0], "tcpconn") && n == 3) {
+      /* a foreign party opens its own (real, loopback) TCP connection to <ip:port>, e.g. an agent's tcp-passive candidate */
+      struct sockaddr_in sa; int fd, k;
+      for (k = 0; k < 8 && foreign_tcp[k].fd > 0 && strcmp (foreign_tcp[k].name, w[1]); k++) ;
+      if (k == 8 || !parse_ipport (w[2], &sa)) puts ("err bad tcpconn");
+      else {
+        if (foreign_tcp[k].fd > 0) close (foreign_tcp[k].fd);
+        fd = socket (AF_INET, SOCK_STREAM, 0);
+        if (fd >= 0 && connect (fd, (struct sockaddr *) &sa, sizeof sa) == 0) {
+          snprintf (foreign_tcp[k].name, sizeof foreign_tcp[k].name, "%s", w[1]); foreign_tcp[k].fd = fd;
+          total_dispatches += iterate_ready ();
+          { struct sockaddr_in me; socklen_t ml = sizeof me; char ip[32];
+            getsockname (fd, (struct sockaddr *) &me, &ml); inet_ntop (AF_INET, &me.sin_addr, ip, sizeof ip);
+            printf ("ok connected fd %d local %s:%u\n", fd, ip, ntohs (me.sin_port)); }
+        } else { if (fd >= 0) close (fd); printf ("ok refused errno %d\n", errno); }
+      }
+    }
+    else if (!strcmp (w[0], "tcpsend") && n == 3) {
+      int k; uint8_t *b; long l = parse_hex (w[2], &b); ssize_t r = -1;
+      for (k = 0; k < 8 && (foreign_tcp[k].fd <= 0 || strcmp (foreign_tcp[k].name, w[1])); k++) ;
+      if (k < 8 && l >= 0) r = send (foreign_tcp[k].fd, b, l, MSG_NOSIGNAL);
+      if (l >= 0) free (b);
+      total_dispatches += iterate_ready ();
+      printf ("ok wrote %zd\n", r);
+    }
+    else if (!strcmp (w[0], "sendburst") && n == 7 && (g = find_ag (w[1])) && g->alive) {
+      /* sendburst <A> <sid> <cid> <count> <size> <seed>: back-to-back sends WITHOUT running the main loop in between
+       * (the receiver lags behind); message i, byte j = (seed * 31 + i * 7 + j * 13) & 0xff; stops at the first refusal */
+      int cnt = atoi (w[4]), sz = atoi (w[5]), seed = atoi (w[6]), i, j, sent = 0; gssize r = 0;
+      uint8_t *b = malloc (sz > 0 ? sz : 1);
+      for (i = 0; i < cnt; i++) {
+        for (j = 0; j < sz; j++) b[j] = (uint8_t) (seed * 31 + i * 7 + j * 13);
+        r = nice_agent_send (g->agent, atoi (w[2]), atoi (w[3]), sz, (const gchar *) b);
+        if (r != sz) break;
+        sent++;
+      }
+      free (b);
+      total_dispatches += iterate_ready ();
+      printf ("ok sent %d last %zd\n", sent, r);
     }
     else if (!strcmp (w[0], "settle") && n == 2) {
       /* real-time settling for kernel TCP (ICE-TCP under back-pressure): keep dispatching ready sources, sleeping 1 ms
